@@ -25,7 +25,9 @@ for k, sid in order:
             for p in props:
                 env = dict(os.environ, VERIF_REPO=wt, VERIF_SEED=sd, VERIF_EVIDENCE_DIR=f"/tmp/det-evid/{sid}", VERIF_REPLAY_DIR=f"/tmp/det-evid/{sid}/replays")
                 c = subprocess.run(["./check", p, "--tier", "quick"], cwd=ROOT, env=env, capture_output=True, text=True)
-                if c.returncode == 1:
+                if c.returncode == 1 and "VIOLATION property=" not in c.stdout:
+                    hit.append(f"{p}:exit1-without-a-violation-line")      # (the runner itself failed: not a detection)
+                elif c.returncode == 1:
                     hit.append(p)
                     if os.environ.get("DET_FIRST"): break      # one reporting check is enough
                 elif c.returncode != 0: hit.append(f"{p}:exit{c.returncode}")
